@@ -260,8 +260,22 @@ def clock_writers(chk: Check, repo: Repo) -> None:
                     return bool(nc) and nc[1] in (">", ">=") and "current_timer_value" in nc[2] and nc[0] == arg.id
                 def untouched(t_: ast.AST) -> bool:
                     return isinstance(t_, ast.Compare) and len(t_.ops) == 1 and isinstance(t_.ops[0], ast.Eq) and ast.unparse(t_.left) == "self._clock_difference" and isinstance(init_v, int) and repo.fold(t_.comparators[0], sy.module, sy.cls) == init_v
+                # "untouched" is the conjunction of both: the offset still has its initial value AND no wrapper was ever
+                # sent or accepted with this timer (a time keeper that ran on its own clock after an unanswered first
+                # synchronisation also has offset 0 - its wrappers are out) - the second is a flag raised at the end of
+                # synchronize() and never lowered
+                iu = [w for w in attr_writes(repo, "timer_in_use", include_mutators=False)]
+                iu_by = {}
+                for w in iu:
+                    iu_by.setdefault(w.func.qualname, []).append(ast.unparse(w.stmt.value))
+                flag_ok = iu_by == {"SecureSequenceTimer.__init__": ["False"], "SecureSequenceTimer.synchronize": ["True"]}
+                def fresh(t_: ast.AST) -> bool:
+                    if not (isinstance(t_, ast.BoolOp) and isinstance(t_.op, ast.And)):
+                        return False
+                    unused = any(isinstance(x, ast.UnaryOp) and isinstance(x.op, ast.Not) and ast.unparse(x.operand) == "self.timer_in_use" for x in t_.values)
+                    return flag_ok and unused and any(untouched(x) for x in t_.values) and all(untouched(x) or (isinstance(x, ast.UnaryOp) and isinstance(x.op, ast.Not) and ast.unparse(x.operand) == "self.timer_in_use") for x in t_.values)
                 arms = node_.test.values
-                okm = any(ahead(t_) for t_ in arms) and all(ahead(t_) or untouched(t_) for t_ in arms)
+                okm = any(ahead(t_) for t_ in arms) and all(ahead(t_) or fresh(t_) for t_ in arms)
     chk.ob("sync-reply-never-moves-the-timer-back", sy.site(upc[0]) if upc else sy.site(), okm, "synchronize() applies the reply only when it is ahead of the timer" if okm else "synchronize() assigns the reply's value to the timer unconditionally (`self.update(new_value=...)`): a reply lower than what the timer has reached meanwhile (other authenticated notifications / wrappers moved it on while the request was pending; or our own request echoed back from another address) sets the timer BACK — outgoing wrappers then carry a lower timer value and an older replayed wrapper falls inside the tolerance again", key="clock|sync-reply-can-move-the-timer-back")
     chk.ob("clock-update-source", sy.site(), ok, "the synchronised value is the result of the future this synchronize() created and stored as the expected reply, i.e. the one handle_timer_notify completes after MAC verification", key="clock-update-source")
     # validate_secure_wrapper is only called after decrypt_frame succeeded (table (a)) ; census of callers
